@@ -268,6 +268,11 @@ def do_job(job):
                 if d1 is None or d2 is None or (d1["cost"], d1["salt"]) == (d2["cost"], d2["salt"]):
                     acc.count("setting_alternate_spelling")
                     continue
+                if d1["salt"] == d2["salt"] and yes_effective(d1["cost"]) == yes_effective(d2["cost"]):
+                    # yescrypt's definition rounds the loop counts derived from t (up to even, per thread): for
+                    # small N/p two values of t describe the very same computation
+                    acc.count("setting_equivalent_by_specification")
+                    continue
             acc.count("setting_perturbations")
             acc.count("sp/" + m)
             acc.cls((m, kind, min(pos, 40)))
@@ -279,6 +284,28 @@ def do_job(job):
     acc.sample({"method": m, "setting": s.decode("latin1"), "base_len": len(base),
                 "positions": len(positions), "hash": H.decode("latin1")}, cap=2)
     return acc
+
+
+def yes_effective(cost):
+    """what the yescrypt definition (smix) derives from (flavour, log2 N, r, p, t): the time parameter only enters
+    through two loop counts that are rounded up to even"""
+    fl, nl, r, p, t = cost
+    rw = fl >= 2
+    nchunk = (1 << nl) // max(p, 1)
+    la = nchunk
+    if rw:
+        if t <= 1:
+            if t:
+                la *= 2
+            la = (la + 2) // 3
+        else:
+            la *= t - 1
+    elif t:
+        if t == 1:
+            la += (la + 1) // 2
+        la *= t
+    lrw = la // max(p, 1) if rw else 0
+    return (fl, nl, r, p, (la + 1) & ~1, (lrw + 1) & ~1)
 
 
 def do_cost_grid(args):
